@@ -26,7 +26,9 @@ static void hexname(const char *s) {
 static void dump_sym(const TSLanguage *lang, TSSymbol i) {
   TSSymbolMetadata m = ts_language_symbol_metadata(lang, i);
   printf("sym %u %d %d %d %u ", (unsigned)i, m.visible, m.named, m.supertype,
-         (unsigned)ts_language_public_symbol(lang, i));
+         // ts_language_public_symbol indexes public_symbol_map with the symbol; `_ERROR` (65534) is
+         // never public (it is hidden), so it is printed as itself instead of reading out of bounds
+         (unsigned)(i == ts_builtin_sym_error_repeat ? i : ts_language_public_symbol(lang, i)));
   hexname(ts_language_symbol_name(lang, i));
   printf("\n");
 }
